@@ -387,8 +387,11 @@ def calculator_reuse_oracles(crys, chem, cutoff, nA, nB, nrng):
         return out
     compare_bundles(out, 'reuse:calculator', {k: np.asarray(getattr(c, k)) for k in CALC_ARRAYS},
                     {k: np.asarray(getattr(f, k)) for k in CALC_ARRAYS}, ctxt)
+    # defects of the vector stars / expansions themselves keep the signature of the main stream (the reuse signatures are
+    # reserved for reused-vs-fresh differences); a signature that the fresh calculator does not show is a reuse failure
+    fresh_sigs = {r[0] for r in vector_star_oracles(f.kinetic, f.vkinetic) + projection_oracles(f, nrng)}
     for sig, what, d in vector_star_oracles(c.kinetic, c.vkinetic) + projection_oracles(c, nrng):
-        out.append(('reuse:calculator:' + sig, ctxt + ': ' + what, d))
+        out.append((sig if sig in fresh_sigs else 'reuse:calculator:' + sig, ctxt + ': ' + what, d))
     return out
 
 
